@@ -245,9 +245,21 @@ func TestC03DocumentPatch(t *testing.T) {
 			before := len(w.Reps[0].Buffer())
 			var perr error
 			var pan interface{}
+			// directly, or (a third) inside a transaction of the user whose function hands the error on
+			inUserTx := rapid.IntRange(0, 2).Draw(rt, fmt.Sprintf("p%d.in_user_tx", pi)) == 0
 			func() {
 				defer func() { pan = recover() }()
-				if e := doc.Patch(patch...); e != nil {
+				if inUserTx {
+					labels["inside-a-user-transaction"] = true
+					if e := doc.Transaction("user", func(d orda.DocumentInTx) error {
+						if pe := d.Patch(patch...); pe != nil {
+							return pe
+						}
+						return nil
+					}); e != nil {
+						perr = e
+					}
+				} else if e := doc.Patch(patch...); e != nil {
 					perr = e
 				}
 			}()
@@ -280,7 +292,7 @@ func TestC03DocumentPatch(t *testing.T) {
 					c.failf("Patch(%s) on %s left %s, the plain structure gives %s", ob, unchanged, got, result)
 				}
 				want := n
-				if n > 1 {
+				if n > 1 || inUserTx {
 					want = n + 1
 				}
 				if queued != want {
